@@ -236,7 +236,7 @@ impl<const N: u32> PxE2<{ N }> {
                 if reg_z < N {
                     //remove hidden bits
                     frac64_z &= 0x_3FFF_FFFF_FFFF_FFFF;
-                    frac_z = (frac64_z >> (reg_z + 34)) as u32; //frac32Z>>16;
+                    frac_z = crate::u64_zero_shr(frac64_z, reg_z + 34) as u32; //frac32Z>>16;
 
                     if reg_z + 4 <= N {
                         bit_n_plus_one =
